@@ -211,6 +211,9 @@ def long_texts(n):
         ("ternary-list", "let x = 0;\nlet y = x == 0 ? [%s].len() : 0;\nprint(y);" % items, "%d\n" % n),
         ("and-list", "let x = 0;\nlet y = x == 0 && [%s].len();\nprint(y);" % items, "%d\n" % n),
         ("or-list", "let x = nil;\nlet y = x || [%s].len();\nprint(y);" % items, "%d\n" % n),
+        # the number of jump targets in one function grows with n (each jump itself stays short)
+        ("many-ifs", "let x = 0;\n%s\nprint(x);" % ("if x == 1 { x = 2; } " * n), "0\n"),
+        ("fn-many-loops", "fn f() {\nlet x = 0;\n%s\nreturn x;\n}\nprint(f());" % ("while x < 0 { x = 1; } " * n), "0\n"),
         # operand stack depth grows with n: every element of a literal is on the stack before the collecting
         # instruction runs, on top of whatever the enclosing expressions and locals already hold
         ("deep-list-arg", "fn count(l) { return l.len(); }\nfn f(a) {\nlet l = 1;\nreturn count([%s]) + l + a;\n}\nprint(f(1));" % items,
